@@ -98,6 +98,12 @@ pub fn run(prop: &'static str, tier: &str, seed: u64) -> i32 {
         let slow: Vec<Vec<Value>> = run_cases(((n_slow + 3) / 4) as usize, 4, move |b| run_worker("c11slow", seed ^ 0x510, b as u64 * 4, 4));
         results.extend(slow);
     }
+    if prop == "C11" {
+        // limit and heartbeat through the HTTP front end (pulses flow before the n-th frame exists)
+        let n_http = if t { 120 } else { 8 };
+        let http: Vec<Value> = run_cases(n_http, 8, move |i| crate::e2h::http_limit_round(crate::rng::mix(seed, 99_000 + i as u64)));
+        results.push(http);
+    }
     if prop == "C03" {
         // the same property through the HTTP front end: a follower whose replay is held up while others append
         let n_http = if t { 120 } else { 6 };
@@ -186,6 +192,10 @@ pub fn run(prop: &'static str, tier: &str, seed: u64) -> i32 {
             if r["http_round"] == true {
                 rep.count("http_rounds", 1);
             }
+            if r["http_limit_round"] == true {
+                rep.count("http_limit_rounds", 1);
+                rep.count("http_limit.pulses_delivered_before_the_nth_frame", r["pulses_before_the_nth_frame"].as_u64().unwrap_or(0));
+            }
             if r["http_follow_round"] == true {
                 rep.count("http_follow_rounds", 1);
                 rep.count("http_follow.appended_during_replay_and_delivered_after_threshold", r["delivered_from_window"].as_u64().unwrap_or(0));
@@ -231,6 +241,7 @@ pub fn run(prop: &'static str, tier: &str, seed: u64) -> i32 {
         rep.require("http follow rounds", rep.counters.get("http_follow_rounds").copied().unwrap_or(0) > 0);
     }
     if prop == "C11" {
+        rep.require("http limit rounds with pulses", rep.counters.get("http_limit.pulses_delivered_before_the_nth_frame").copied().unwrap_or(0) > 0);
         rep.require("a slow consumer actually lagged", rep.counters.get("slow_rounds_that_lagged").copied().unwrap_or(0) > 0);
     }
     rep.finish()
